@@ -114,7 +114,7 @@ func init() {
 					// the two appends sit in one block and use the same range index
 					label := fn + ": index and short hash of a missing position are recorded together"
 					ok := false
-					ast.Inspect(f.Body(), func(x ast.Node) bool {
+					core.InspectBody(f, func(x ast.Node) bool {
 						blk, isBlk := x.(*ast.BlockStmt)
 						if !isBlk {
 							return true
@@ -217,7 +217,7 @@ func init() {
 				c := f.Ctx()
 				label := fn + ": the height loop covers Start..End inclusive and starts a worker per height"
 				ok := false
-				ast.Inspect(f.Body(), func(x ast.Node) bool {
+				core.InspectBody(f, func(x ast.Node) bool {
 					fs, isFor := x.(*ast.ForStmt)
 					if !isFor || fs.Init == nil || fs.Cond == nil || fs.Post == nil {
 						return true
@@ -265,7 +265,7 @@ func init() {
 				// the worker signals completion on every path
 				for _, cl := range f.Closures() {
 					calls := false
-					ast.Inspect(cl.Body(), func(x ast.Node) bool {
+					core.InspectBody(cl, func(x ast.Node) bool {
 						if call, isCall := x.(*ast.CallExpr); isCall {
 							if fnc := core.Callee(cl.Info(), call); fnc != nil && core.ShortName(fnc) == dp+"downloadBlock" {
 								calls = true
@@ -315,7 +315,7 @@ func init() {
 					c := f.Ctx()
 					label := fn + ": the failure branch releases the peer's slot and removes the peer before it leaves"
 					found, okBranch := false, false
-					ast.Inspect(f.Body(), func(x ast.Node) bool {
+					core.InspectBody(f, func(x ast.Node) bool {
 						ifs, isIf := x.(*ast.IfStmt)
 						if !isIf {
 							return true
@@ -360,7 +360,7 @@ func init() {
 					c := f.Ctx()
 					label := fn + ": the shortened candidate list replaces the old one"
 					ok := false
-					ast.Inspect(f.Body(), func(x ast.Node) bool {
+					core.InspectBody(f, func(x ast.Node) bool {
 						as, isAs := x.(*ast.AssignStmt)
 						if isAs && len(as.Lhs) == 1 && len(as.Rhs) == 1 && core.IsObj("param:1")(c, as.Lhs[0]) && core.CallAtom([]string{dl + "tasks.Remove"})(c, as.Rhs[0]) {
 							ok = true
@@ -391,7 +391,7 @@ func init() {
 				c := f.Ctx()
 				// a counter that is incremented once per round and compared with a constant that ends the worker
 				var counter types.Object
-				ast.Inspect(f.Body(), func(x ast.Node) bool {
+				core.InspectBody(f, func(x ast.Node) bool {
 					if inc, ok := x.(*ast.IncDecStmt); ok && inc.Tok == token.INC {
 						if id, ok := ast.Unparen(inc.X).(*ast.Ident); ok {
 							counter = c.Info.ObjectOf(id)
@@ -431,7 +431,7 @@ func init() {
 					c := f.Ctx()
 					label := ct + " walks every recorded failed height of the task"
 					ok := false
-					ast.Inspect(f.Body(), func(x ast.Node) bool {
+					core.InspectBody(f, func(x ast.Node) bool {
 						rs, isR := x.(*ast.RangeStmt)
 						if !isR {
 							return true
@@ -464,7 +464,7 @@ func init() {
 					ok := false
 					for _, cl := range f.Closures() {
 						c := cl.Ctx()
-						ast.Inspect(cl.Body(), func(x ast.Node) bool {
+						core.InspectBody(cl, func(x ast.Node) bool {
 							as, isAs := x.(*ast.AssignStmt)
 							if !isAs || len(as.Lhs) != 1 {
 								return true
